@@ -155,7 +155,8 @@ def add_rules(rng, cfg, profile):
                 hi = lo + rng.choice([1, 2, 10, 1000])
                 k = rng.choice(["lower", "upper", "range", "lower+upper"])
                 if c == "level":
-                    lo, k = 0, rng.choice(["upper", "range"])
+                    # (a lower bound of 1: the first increment of a fresh counter gives exactly the bound)
+                    lo, k = rng.choice([0, 0, 1]), rng.choice(["upper", "range", "lower", "range"])
                     hi = rng.choice([3, 5, 10])
                 if k == "lower":
                     a.checks.append(("lower", lo, et))
